@@ -160,6 +160,19 @@ class SimBus:
                     p.last_delivery = t
                     sim.at(t, (lambda p=p, fr=fr: self._deliver(p, fr)), 'rx')
 
+    def send_sync(self, src, can_id, ext, data, fd=False):
+        """Put a frame on the bus and deliver it synchronously (inside the caller's context) to every other port:
+        a peer whose reply is processed before the stack's own send call has returned."""
+        sim = self.sim
+        fr = Frame(len(self.frames), sim.now, src, can_id, ext, data, fd)
+        self.frames.append(fr)
+        sim.log('tx-sync', fr.seq, src, can_id, data)
+        for ob in self.observers:
+            ob(fr)
+        for p in self.ports:
+            if p.name != src and p.deliver is not None and p.name not in self.silent:
+                self._deliver(p, fr)
+
     def _deliver(self, p, fr):
         if p.name in self.silent:
             return
